@@ -2205,8 +2205,31 @@ func TestC12(t *testing.T) {
 	}
 	cfg := c12PrefixCfg()
 	serialNotes := 0
+	dbgDeviates := func() bool { return false }
+	if f := os.Getenv("C12_DBG_TRACE"); f != "" {
+		b, _ := os.ReadFile(f)
+		var doc struct{ Trace json.RawMessage }
+		json.Unmarshal(b, &doc)
+		trd, _ := c12DecodeStateTrace(doc.Trace)
+		dbgDeviates = func() bool {
+			o2, _ := runC12StateWith(trd, fs, c12ReplayPicker(trd.Sched))
+			return o2.SerialNote != "" || o2.Err != nil
+		}
+		t.Logf("C12 DBG: before exploration deviates=%v", dbgDeviates())
+	}
+	dbgCase, dbgFlipped := 0, false
 	c.Check(t, "state-schedules", hx.N(500, 12000), func(cs *hx.Case) {
 		rt := cs.RT()
+		dbgCase++
+		if !dbgFlipped && os.Getenv("C12_DBG_TRACE") != "" {
+			defer func() {
+				if dbgDeviates() {
+					dbgFlipped = true
+					b, _ := json.Marshal(cs.Trace)
+					t.Logf("C12 DBG: deviates after case %d: %s", dbgCase, b)
+				}
+			}()
+		}
 		sc := c12GenStateCase(t, cs, fs, cfg)
 		if sc == nil {
 			return
